@@ -171,6 +171,10 @@ func (w *world) boot(cfg *CfgSpec) error {
 		if w.conc != nil {
 			// concurrent phase (C15): kept with the task that sent it and
 			// applied with its reply, in serialization order
+			// Pushing to the runtime is an access like one to the cache or the
+			// policy: outside the lock it can overtake, or be overtaken by,
+			// what another handler tells the runtime.
+			verifrt.Touch("runtime", "stub.UpdateContainers")
 			task := verifrt.CurrentTask()
 			w.conc.pushedBy[task] = append(w.conc.pushedBy[task], u)
 			return nil, nil
